@@ -38,6 +38,7 @@ type retPoint struct {
 	results []Val
 	pos     token.Pos
 	blk     *ssa.BasicBlock
+	idx     int // source-order index among the function's returns
 }
 
 func (e *Enc) newInst(fn *ssa.Function, parent *Inst) *Inst {
@@ -176,6 +177,7 @@ func (in *Inst) run(entry *State) {
 	if len(fn.Blocks) == 0 {
 		e.fail("function %s has no body", fn)
 	}
+	in.initDefers(entry)
 	in.entry = entry.clone()
 	in.findLoops()
 	order := in.rpo()
@@ -549,7 +551,7 @@ func (in *Inst) instr(ins ssa.Instruction, st *State) {
 		for _, r := range x.Results {
 			rs = append(rs, in.val(r, st))
 		}
-		in.rets = append(in.rets, retPoint{st: st.clone(), results: rs, pos: x.Pos(), blk: x.Block()})
+		in.rets = append(in.rets, retPoint{st: st.clone(), results: rs, pos: x.Pos(), blk: x.Block(), idx: retIndex(in.fn, x)})
 		st.reach = "false"
 	case *ssa.Panic:
 		if e.safety && !in.panicsAllowedHere() {
